@@ -88,11 +88,18 @@ def seeded() -> str:
             else:
                 cells.append(f'**missed** (exit {v.get("exit")})')
         note = meta.get('caught_by_note', '')
+        if meta.get('void_since'):
+            vs = meta['void_since']
+            cells = [f'no longer a fault since the repair `{vs["repo_commit"]}`: ' + vs['why']]
+        if meta.get('wave'):
+            sid_w = f'{sid} (w{meta["wave"]})'
+        else:
+            sid_w = f'{sid} (w1)'
         def clip(s, n):
             s = ' '.join(str(s).split()).replace('|', '\\|')
             return s if len(s) <= n else s[:n - 1] + '…'
-        rows.append(f'| {sid} | {",".join(pids)} | {clip(meta.get("title", ""), 200)} | {clip(meta.get("needs", ""), 260)} | '
-                    f'{clip(" / ".join(cells) or "not run", 300)}{(" — " + clip(note, 300)) if note else ""} |')
+        rows.append(f'| {sid_w} | {",".join(pids)} | {clip(meta.get("title", ""), 200)} | {clip(meta.get("needs", ""), 260)} | '
+                    f'{clip(" / ".join(cells) or "not run", 700 if meta.get("void_since") else 300)}{(" — " + clip(note, 300)) if note else ""} |')
     return '\n'.join(rows) + '\n'
 
 
